@@ -224,3 +224,36 @@ def np_unravel_index(ex, st, args, kwargs, node):
         st.assume(z3.And(k == qi * c + ri, ri >= 0, ri < c, qi >= 0, qi < r))
         return _out((qi, ri), st)
     raise _U("np.unravel_index", node)
+
+
+def np_append(ex, st, args, kwargs, node):
+    """np.append(vector, scalar): the vector with the scalar added at the end"""
+    v, x = args
+    if isinstance(v, PyList):
+        v = ex.coerce(ty.Seq(ty.Real), v, node)
+    if isinstance(v, ty.SeqV) and not kwargs:
+        a = v.arrs[0]
+        if v.elem is ty.Int:
+            i = _i("ai")
+            a = z3.Lambda([i], z3.ToReal(ty.sel(v.arrs[0], i)))
+        return _out(ty.SeqV(ty.Real, [z3.Store(a, v.len, _real(ex, st, x, node))], v.len + 1), st)
+    raise _U(f"np.append({v!r}, ..)", node)
+
+
+def np_delete(ex, st, args, kwargs, node):
+    """np.delete(a, i, axis=0): without row / entry i"""
+    v, idx = args[0], args[1]
+    axis = kwargs.get("axis", args[2] if len(args) > 2 else None)
+    p = ty.to_z3num(_num(ex, st, idx, node))
+    if isinstance(v, ty.OptV):
+        ex.safety(st, "none-passed-to-np.delete", z3.Not(v.isnone), node)
+        v = v.val
+    if isinstance(v, ty.MatV) and axis == 0:
+        ex.safety(st, "index(np.delete)", z3.And(p >= 0, p < v.rows), node)
+        i = _i("di")
+        return _out(ty.MatV(z3.Lambda([i], z3.If(i < p, ty.sel(v.arr, i), ty.sel(v.arr, i + 1))), v.rows - 1, v.cols), st)
+    if isinstance(v, ty.SeqV) and axis in (0, None):
+        ex.safety(st, "index(np.delete)", z3.And(p >= 0, p < v.len), node)
+        i = _i("di")
+        return _out(ty.SeqV(v.elem, [z3.Lambda([i], z3.If(i < p, ty.sel(a, i), ty.sel(a, i + 1))) for a in v.arrs], v.len - 1), st)
+    raise _U(f"np.delete({v!r}, axis={axis!r})", node)
